@@ -495,6 +495,7 @@ pub fn run(ctx: &Ctx, rep: &mut Report) {
             order.push(CLASSES[rng.usize(CLASSES.len())]);
         }
         let mut accepted: Vec<(bool, [u8; 32], Vec<MMessage>, ProofPlan)> = Vec::new();
+        let mut window = false;
         for class in order {
             // the history goes on between submissions: time passes, now and then the signers rotate
             if rng.chance(1, 9) {
@@ -505,16 +506,21 @@ pub fn run(ctx: &Ctx, rep: &mut Report) {
                 }
             }
             // the owner upgrades (to the same code) and migrates: nothing the gateway knows may change
-            if rng.chance(1, 25) {
+            // (the migration follows a few submissions after the upgrade: meanwhile an honest
+            // submission may be refused, but nothing that must fail may be accepted)
+            if !window && rng.chance(1, 25) {
                 let ga = w.g.addr.clone();
-                match w.u.upgrade_and_migrate(&ga) {
-                    Ok(()) => rep.count("upgrade-and-migrate"),
-                    Err(e) => {
-                        rep.step(format!("upgrade and migrate -> {}", e));
-                        rep.foreign("upgrade-or-migrate-refused");
-                        break;
-                    }
+                if w.u.upgrade_only(&ga).is_ok() {
+                    window = true;
+                    rep.count("migration-window-opened");
+                    rep.step("the gateway is upgraded to the same code: the migration window opens".into());
                 }
+            } else if window && rng.chance(1, 3) {
+                let ga = w.g.addr.clone();
+                let _ = w.u.migrate_only(&ga, &[]);
+                window = false;
+                rep.count("upgrade-and-migrate");
+                rep.step("migration: the window closes".into());
             }
             if rng.chance(1, 7) {
                 let cand = gen_wellformed_set(&mut rng, &mut w.ring, max_signers);
@@ -524,6 +530,10 @@ pub fn run(ctx: &Ctx, rep: &mut Report) {
                 };
                 rep.step(format!("rotation to epoch {} (honest)", w.g.model.epoch()));
                 rep.count("mid-history-rotation");
+                if !ok && window {
+                    rep.count("note:valid-request-refused-while-migration-window-open");
+                    break;
+                }
                 if !ok {
                     rep.foreign("mid-history-rotation-refused");
                     break;
@@ -598,6 +608,9 @@ pub fn run(ctx: &Ctx, rep: &mut Report) {
                             rep.violation(&format!("accepted:resubmit-earlier-accepted:{}", r), format!("a proof that was accepted earlier is accepted again although the model says it must now fail: {}", r));
                         }
                         break;
+                    }
+                    (Must::Succeed, false) if window => {
+                        rep.count("note:valid-request-refused-while-migration-window-open");
                     }
                     (Must::Succeed, false) => {
                         rep.violation("refused:resubmit-earlier-accepted", "an identical, still valid proof was refused the second time".into());
@@ -716,6 +729,10 @@ pub fn run(ctx: &Ctx, rep: &mut Report) {
                         rep.foreign(&format!("accepted:{}", r));
                     }
                     diverged = true;
+                }
+                (Must::Succeed, false) if window => {
+                    rep.count("note:valid-request-refused-while-migration-window-open");
+                    continue;
                 }
                 (Must::Succeed, false) => {
                     let r = if epoch_gap.unwrap_or(0) > 0 { "retention" } else { "honest" };
